@@ -65,6 +65,17 @@ CLAIMED = {
              'relies on it; see DESIGN F15).',
         technique='Lean 4 proof + generated constant + model/implementation correspondence check',
         design_ref='DESIGN.md 4/C16'),
+    'C14': dict(
+        text='Theorems about a Lean model of _partial/grad/hess, the grad_val/hess_val formulas, shift_coordinates, '
+             'as_polynomial/as_signomial and Polynomial.__call__ on polynomial vectors: symbolic partials are the formal '
+             'derivatives at coefficient level (and, for signomials, the real derivative via Mathlib HasDerivAt), mixed '
+             'partials commute, the value formulas equal the values of the symbolic derivatives, shifting multiplies '
+             'coefficients by the character of x0, composition evaluates to the composed polynomial. Tied to the code by '
+             'representation-level diffs and by value comparisons at points where exponentials are exact powers of two.',
+        note='signomial VALUES are compared at 1e-9 relative tolerance (numpy exp is not modelled); shift_coordinates claimed '
+             'for Signomials only.',
+        technique='Lean 4 proof (list algebra + Mathlib calculus) + model/implementation correspondence check',
+        design_ref='DESIGN.md 4/C14'),
 }
 
 NOT_YET = 'check not built yet in this session (planned, see DESIGN.md section 6); not claimed until its theorems and correspondence exist'
